@@ -1022,6 +1022,17 @@ theorem tensor_is_kronecker_product (a b : Tab) :
   have h := rho_tensor a b
   exact ⟨h, fun x y => by rw [h]; rfl⟩
 
+/-- `tensor(list_of_tables)` for a whole list (the Python folds the two-factor step from the left): the state is the
+    iterated Kronecker product, in list order -/
+theorem tensor_list_is_iterated_kronecker_product (t : Tab) (ts : List Tab) :
+    dstate (tensorL t ts) = (ts.map dstate).foldl dTensor (dstate t) ∧
+    (∀ s1 s2 : DState, dTensor s1 s2 = ⟨s1.n + s2.n, kronB s1.ρ s2.ρ⟩) := ⟨dstate_tensorL t ts, fun _ _ => rfl⟩
+
+/-- at the last site, `insSite` is the entrywise product of `pauli_matrix_is_kronecker_product` (§6): the two Kronecker
+    conventions agree -/
+theorem site_tensor_at_last_site {m : Nat} (A : Matrix (Bits m) (Bits m) ℂ) (u : Matrix Bool Bool ℂ) (a b : Bits (m + 1)) :
+    insSite m A u a b = A (initB a) (initB b) * u (lastB a) (lastB b) := insSite_last A u a b
+
 example : rho 3 (STab.ofTab (bell.insertQubit 1)) = insSite 1 (rho 2 (STab.ofTab bell)) (ketbra false) :=
   (insert_qubit_is_tensor_with_ket0 bell 1 (by decide) bell_valid bell_real).1
 example : rho 3 (STab.ofTab (Tab.tensor2 (Tab.ket1 1) bell))
